@@ -101,12 +101,113 @@ fn sign_vs_verify() -> String {
     format!("{} signer_won={:?} verifier_accepts={} indices", if won == accepted { "agree" } else { "disagree" }, won, accepted.len())
 }
 
+fn agg_json(clerk: &Clerk<D>, sigs: &[SingleSignature], msg: &[u8]) -> serde_json::Value {
+    let input = AncillaryProofInput::new(None, AncillaryGenesisData::new());
+    let (aggr, _) = clerk.aggregate_signatures_with_type(sigs, msg, AggregateSignatureType::Concatenation, input).unwrap();
+    serde_json::to_value(&aggr).unwrap()
+}
+
+fn with_indexes(sig: &SingleSignature, idx: &[u64]) -> SingleSignature {
+    let mut c = sig.clone();
+    c.set_concatenation_signature_indices(idx);
+    c
+}
+
+fn verdict(r: Result<(), impl std::fmt::Display>) -> String {
+    match r {
+        Ok(()) => "accepted".to_string(),
+        Err(e) => format!("rejected ({})", e),
+    }
+}
+
+/// the same lottery index claimed by two different signatures: 3 pairwise-distinct indices, 4 occurrences, k = 4
+fn cross_dup() -> String {
+    let params = Parameters { m: 6, k: 4, phi_f: 1.0 };
+    let (signers, clerk) = setup(params, &[10, 20]);
+    let msg = b"verif-replay".to_vec();
+    let a = with_indexes(&signers[0].create_single_signature(&msg).unwrap(), &[0, 1]);
+    let b = with_indexes(&signers[1].create_single_signature(&msg).unwrap(), &[2, 3]);
+    let mut v = agg_json(&clerk, &[a, b], &msg);
+    // {"signatures": [[{"sigma","indexes","signer_index"}, [vk, stake]], ...], "batch_proof": ...}
+    let mut changed = false;
+    for entry in v["signatures"].as_array_mut().unwrap() {
+        if entry[0]["indexes"] == serde_json::json!([2, 3]) {
+            entry[0]["indexes"] = serde_json::json!([1, 2]);
+            changed = true;
+        }
+    }
+    if !changed {
+        return "scenario-not-built".to_string();
+    }
+    let forged: mithril_stm::AggregateSignature<D> = serde_json::from_value(v).unwrap();
+    format!("{} distinct=3 occurrences=4 k=4", verdict(forged.verify(&msg, &clerk.compute_aggregate_verification_key(), &params, None, None)))
+}
+
+/// an extra entry claiming the signer slot of a committed one but an uncommitted (inflated) stake, placed before it
+fn uncommitted_leaf() -> String {
+    let params = Parameters { m: 6, k: 4, phi_f: 1.0 };
+    let (signers, clerk) = setup(params, &[10, 20]);
+    let msg = b"verif-replay".to_vec();
+    let a = with_indexes(&signers[0].create_single_signature(&msg).unwrap(), &[0, 1]);
+    let adversary_params = Parameters { k: 2, ..params };
+    let adversary_clerk = Clerk::new_clerk_from_signer(&signers[0]);
+    let _ = adversary_params;
+    let input = AncillaryProofInput::new(None, AncillaryGenesisData::new());
+    // aggregate of the single honest entry under k = 2 (own clerk with k=2)
+    let (_, clerk2) = setup(Parameters { k: 2, ..params }, &[10, 20]);
+    let (base, _) = match clerk2.aggregate_signatures_with_type(std::slice::from_ref(&a), &msg, AggregateSignatureType::Concatenation, input) {
+        Ok(x) => x,
+        Err(e) => return format!("scenario-not-built ({})", e),
+    };
+    let _ = adversary_clerk;
+    let base_json = serde_json::to_value(&base).unwrap();
+    let mut forged_entry = base_json["signatures"][0].clone();
+    forged_entry[0]["indexes"] = serde_json::json!([2, 3]);
+    forged_entry[1][1] = serde_json::json!(1_000_000u64); // stake not committed by the aggregate key
+    let mut out = Vec::new();
+    for pos in [0usize, 1] {
+        let mut j = base_json.clone();
+        j["signatures"].as_array_mut().unwrap().insert(pos, forged_entry.clone());
+        let forged: mithril_stm::AggregateSignature<D> = serde_json::from_value(j).unwrap();
+        out.push(format!("pos{}={}", pos, verdict(forged.verify(&msg, &clerk.compute_aggregate_verification_key(), &params, None, None))));
+    }
+    out.join(" ")
+}
+
+/// sigma and indexes swapped between two equal-stake slots: each signature is invalid under its slot's key, the sums match
+fn batch_swap() -> String {
+    let params = Parameters { m: 6, k: 4, phi_f: 1.0 };
+    let (signers, clerk) = setup(params, &[10, 10]);
+    let msg = b"verif-replay".to_vec();
+    let a = with_indexes(&signers[0].create_single_signature(&msg).unwrap(), &[0, 1]);
+    let b = with_indexes(&signers[1].create_single_signature(&msg).unwrap(), &[2, 3]);
+    let mut v = agg_json(&clerk, &[a, b], &msg);
+    let arr = v["signatures"].as_array_mut().unwrap();
+    if arr.len() != 2 {
+        return "scenario-not-built".to_string();
+    }
+    let (s0, i0) = (arr[0][0]["sigma"].clone(), arr[0][0]["indexes"].clone());
+    let (s1, i1) = (arr[1][0]["sigma"].clone(), arr[1][0]["indexes"].clone());
+    arr[0][0]["sigma"] = s1;
+    arr[0][0]["indexes"] = i1;
+    arr[1][0]["sigma"] = s0;
+    arr[1][0]["indexes"] = i0;
+    let forged: mithril_stm::AggregateSignature<D> = serde_json::from_value(v).unwrap();
+    let avk = clerk.compute_aggregate_verification_key();
+    let single = verdict(forged.verify(&msg, &avk, &params, None, None));
+    let batch = verdict(mithril_stm::AggregateSignature::<D>::batch_verify(&[forged], &[msg.clone()], &[avk], &[params], &[None], &[None]));
+    format!("alone={} batch={}", single, batch)
+}
+
 fn main() {
     let a: Vec<String> = std::env::args().skip(1).collect();
     let out = match a.first().map(|s| s.as_str()) {
         Some("index_at_m") => index_at_m(),
         Some("duplicate") => duplicate(),
         Some("sign_vs_verify") => sign_vs_verify(),
+        Some("cross_dup") => cross_dup(),
+        Some("uncommitted_leaf") => uncommitted_leaf(),
+        Some("batch_swap") => batch_swap(),
         _ => "unknown-query".to_string(),
     };
     println!("{}", out);
